@@ -177,6 +177,7 @@ type Replay struct {
 	Knobs      []instr.Knob            `json:"knobs_shrunk_to_2,omitempty"`
 	WeakHashes []instr.HashFunc        `json:"hash_functions_weakened,omitempty"`
 	WeakBits   int                     `json:"hash_bits_kept,omitempty"`
+	SimProcs   int                     `json:"simulated_gomaxprocs,omitempty"`
 	Readable   []string                `json:"readable"`
 	HowTo      string                  `json:"how_to_replay"`
 }
@@ -278,6 +279,10 @@ func refreshExpected(e *Env, session []workerlib.ExplicitRun) error {
 // curVariant is the worker variant explicit sessions run on (set while a
 // violation found on the knob-shrunk build is confirmed / minimised / replayed).
 var curVariant string
+
+// curSimProcs: the simulated GOMAXPROCS/NumCPU of the process in which a
+// violation was found; explicit sessions derived from it run with the same value.
+var curSimProcs int
 
 func runExplicit(e *Env, session []workerlib.ExplicitRun) *ProcResult {
 	ses := &workerlib.Session{Mode: "explicit", Explicit: session, Variant: curVariant}
@@ -688,7 +693,8 @@ func explicitPrefix(e *Env, fv *foundViolation) []workerlib.ExplicitRun {
 // the path, or "" if the violation could not be reproduced (harness problem).
 func processViolation(e *Env, c *Check, fv *foundViolation, limit time.Duration) (string, string) {
 	curVariant = fv.Proc.Session.Variant
-	defer func() { curVariant = "" }()
+	curSimProcs = fv.Proc.Session.SimProcs
+	defer func() { curVariant = ""; curSimProcs = 0 }()
 	sig := violSig(fv.V)
 	pickRaceSig := func(pr *ProcResult) string {
 		sg, _, _ := sigsOf(e, pr)
@@ -777,6 +783,7 @@ func processViolation(e *Env, c *Check, fv *foundViolation, limit time.Duration)
 	}
 	rp := &Replay{Property: "C05", Kind: fv.V.Kind, Signature: sig, Seed: c.Seed, RunSeed: fv.V.Seed, Stage: fv.Stage,
 		TreeDigest: e.TreeDig, SiteDigest: e.Report.SiteDigest, Session: small, HowTo: "cd /verif && ./run C05 --replay <this file>"}
+	rp.SimProcs = curSimProcs
 	if v := e.Variants[curVariant]; v != nil {
 		rp.Variant = v.Name
 		rp.Knobs = v.Knobs
